@@ -48,6 +48,33 @@ class ValState:
             return 'bool'
         if t.replace('const ', '') in ('int', 'long', 'unsigned int', 'unsigned long', 'long long', 'short'):
             return 'int'
+        if t.replace('const', '').strip().endswith('*'):
+            return 'ptr'
+        return None
+
+    # pointers: only equalities between pointer locals are tracked, as ('rel', a, b) -> 'EQ' | 'NE'
+    @staticmethod
+    def _rk(a, b):
+        return ('rel',) + tuple(sorted([a, b]))
+
+    def _drop_rels(self, st, vid):
+        return frozenset((v, a) for v, a in st if not (isinstance(v, tuple) and v[0] == 'rel' and vid in v[1:]))
+
+    def _ptr_rel(self, st, a, b, seen=()):
+        """'EQ' / 'NE' / None by the recorded relations and one step of transitivity through an equal pointer"""
+        if a == b:
+            return 'EQ'
+        r = self.get(st, self._rk(a, b))
+        if r:
+            return r
+        for v, val in st:
+            if isinstance(v, tuple) and v[0] == 'rel' and val == 'EQ' and a in v[1:]:
+                z = v[1] if v[2] == a else v[2]
+                if z in seen or z == b:
+                    continue
+                r2 = self.get(st, self._rk(z, b))
+                if r2:
+                    return r2
         return None
 
     def local_id(self, n):
@@ -122,6 +149,12 @@ class ValState:
         k = n['k']
         if k == 'DeclStmt':
             for d in kids(n):
+                if d['k'] == 'VarDecl' and self.kind(d['id']) == 'ptr':
+                    st = self._drop_rels(st, d['id'])
+                    src = self.local_id(kids(d)[0]) if kids(d) else None
+                    if src is not None and self.kind(src) == 'ptr':
+                        st = self.put(st, self._rk(d['id'], src), 'EQ')
+                    continue
                 if d['k'] == 'VarDecl' and self.kind(d['id']):
                     if kids(d):
                         st = self.assign(st, d['id'], kids(d)[0])
@@ -130,12 +163,22 @@ class ValState:
             return [st]
         if k == 'BinaryOperator' and n.get('op') == '=':
             vid = self.local_id(kids(n)[0])
+            if vid is not None and self.kind(vid) == 'ptr':
+                st = self._drop_rels(st, vid)
+                src = self.local_id(kids(n)[1])
+                if src is not None and self.kind(src) == 'ptr':
+                    st = self.put(st, self._rk(vid, src), 'EQ')
+                return [st]
             if vid is not None and self.kind(vid):
                 return [self.assign(st, vid, kids(n)[1])]
         if k == 'CompoundAssignOperator':
             vid = self.local_id(kids(n)[0])
             if vid is not None and self.kind(vid) == 'int':
                 return [self.put(st, vid, None)]
+        if k in ('UnaryOperator', 'CompoundAssignOperator') and (n.get('op') in ('++', '--') or k == 'CompoundAssignOperator'):
+            vid_ = self.local_id(kids(n)[0])
+            if vid_ is not None and self.kind(vid_) == 'ptr':
+                return [self._drop_rels(st, vid_)]
         if k == 'UnaryOperator' and n.get('op') in ('++', '--'):
             vid = self.local_id(kids(n)[0])
             if vid is not None and self.kind(vid) == 'int':
@@ -158,6 +201,12 @@ class ValState:
             a, b = [strip_casts(x) for x in kids(c)]
             op = c['op']
             ia, ib = self.local_id(a), self.local_id(b)
+            if op in ('==', '!=') and ia is not None and ib is not None and self.kind(ia) == 'ptr' and self.kind(ib) == 'ptr':
+                want = 'EQ' if (op == '==') == truth else 'NE'
+                cur = self._ptr_rel(st, ia, ib)
+                if cur is not None and cur != want:
+                    return None
+                return self.put(st, self._rk(ia, ib), want)
             # accumulator compared with a sentinel constant
             for x, y, ix in ((a, b, ia), (b, a, ib)):
                 if ix in self.acc and const_of(y) in self.sent and op in ('==', '!='):
